@@ -107,10 +107,14 @@ SetLocal(E, n, v) == [E EXCEPT ![Len(E)][n] = v]
 ------------------------------------------------------------------------\* what a name is restored to when its local definition ends: the saved outer
 \* binding; if there was none the name is undefined again -- unless a global
 \* of that name was defined meanwhile, which stays visible (C05).  The code
-\* deletes the name (deviation GlobalLostUnderLocalShadow).
-Restored(n, backup) ==
-  IF backup = Undef /\ glob[n] # Undef /\ "GlobalLostUnderLocalShadow" \notin Dev
-  THEN glob[n] ELSE backup
+\* deletes the name (deviation GlobalLostUnderLocalShadow).  If the saved binding was the GLOBAL one (g0: the global
+\* of that name when the local definition began) the global definition in force NOW becomes visible again: a
+\* global definition made inside the element is not undone by the end of the local scope.  (The code tells "was the
+\* global one" by object identity, the machine by value: recorded finding for values that are equal and not the same.)
+Restored(n, backup, g0) ==
+  IF backup = Undef
+  THEN (IF glob[n] # Undef /\ "GlobalLostUnderLocalShadow" \notin Dev THEN glob[n] ELSE Undef)
+  ELSE IF backup = g0 THEN glob[n] ELSE backup
 
 -----
 \* --- repeat variables: closed forms over (length, position), position 1-based,
@@ -348,10 +352,26 @@ SetCell(c, v) == [x \in DOMAIN cells \cup {c} |-> IF x = c THEN v ELSE cells[x]]
 \* a message object that is inserted (content / replace / attribute / interpolation / on-error fallback) is offered
 \* to the translation function with the translation settings in force at that place
 IsMsg(v) == v.t = "obj" /\ v.kind = "msg"
+\* i18n:attributes: an attribute named by a clause of the statement is offered to the translation function --
+\* message id: the clause's id, or the attribute's text; default: the text; with the translation settings in force on
+\* the element -- every time its start tag is written.  A dropped attribute (None) stays dropped; `default` means the
+\* static text, which is translated like a static attribute.  (Whether the call is made for an EMPTY text without an
+\* explicit id is decided where the text is known: harness.)  Entry 0: not translated.
+IaIndex(it, key) == IndexOfKey(it.ia, key)
+ATrans(i, st, dy, v) ==
+  [ev |-> "atrans", i |-> i, st |-> st, dy |-> dy, id |-> items[i].ia[IaIndex(items[i], IF dy > 0 THEN items[i].dattr[dy].key ELSE items[i].sattr[st].key)].id,
+   v |-> v, d |-> mx.i18n.d, c |-> mx.i18n.c, t |-> mx.i18n.t, act |-> Act]
+StaticOf(it, key) == IndexOfKey(it.sattr, key)
 \* n: which call of this evaluation of the site's expression (the same call may be written several times in one expression)
 EvLog(site, a) == [n \in 1..Len(a.ev) |-> [ev |-> "call", k |-> a.ev[n].k, r |-> a.ev[n].r, site |-> site, act |-> Act, n |-> n]]
                   \o (IF site.s \in {"sub", "attr", "text", "oe"} /\ IsMsg(a.r)
                       THEN << [ev |-> "offer", d |-> mx.i18n.d, c |-> mx.i18n.c, t |-> mx.i18n.t, site |-> site, act |-> Act] >>
+                      ELSE <<>>)
+                  \o (IF site.s = "attr" /\ ~IsExc(a.r) /\ a.r # VNone
+                         /\ ~items[site.i].dattr[site.j].d /\ ~items[site.i].dattr[site.j].b
+                         /\ IaIndex(items[site.i], items[site.i].dattr[site.j].key) > 0
+                         /\ (a.r = VDefault => StaticOf(items[site.i], items[site.i].dattr[site.j].key) > 0)
+                      THEN << ATrans(site.i, StaticOf(items[site.i], items[site.i].dattr[site.j].key), site.j, a.r) >>
                       ELSE <<>>)
 
 \* Raise exception class c at site (the running function's token is the site)
@@ -469,7 +489,8 @@ SDef ==     \* visit_Define / _enter_assignment / visit_Assignment
              ELSE /\ envs' = BindAll(envs, d.ns, a.r, 1)
                   /\ glob' = IF d.g THEN BindGlob(glob, d.ns, a.r, 1) ELSE glob
                   /\ cells' = IF d.g THEN cells
-                              ELSE SetCell(CBk(F.i, F.j), [t |-> "bk", vs |-> [m \in 1..Len(d.ns) |-> Lookup(d.ns[m])]])
+                              ELSE SetCell(CBk(F.i, F.j), [t |-> "bk", vs |-> [m \in 1..Len(d.ns) |-> Lookup(d.ns[m])],
+                                                                      gs |-> [m \in 1..Len(d.ns) |-> glob[d.ns[m]]]])
                   /\ ctl' = nxt
                   /\ UNCHANGED <<rep, out, exc>>
   /\ UNCHANGED <<pid, mx, res>>
@@ -536,7 +557,7 @@ SRep ==     \* visit_Repeat, up to the loop head
   /\ LET r == It.rep
          site == Site(F.i, "rep", 0)
          bk == [m \in 1..Len(r.ns) |-> Lookup(r.ns[m])]
-         c1 == IF r.g THEN cells ELSE SetCell(CBkRep(F.i), [t |-> "bk", vs |-> bk])
+         c1 == IF r.g THEN cells ELSE SetCell(CBkRep(F.i), [t |-> "bk", vs |-> bk, gs |-> [m \in 1..Len(r.ns) |-> glob[r.ns[m]]]])
      IN \E a \in EvAll(r.e, LookupAll) :
           /\ log' = log \o EvLog(site, a)
           /\ tok' = site
@@ -569,7 +590,7 @@ SIter ==    \* for __item in __iterator: assign; after the loop _leave_assignmen
           ELSE /\ RaiseAt(Site(F.i, "rep", 0), UnpackError(v))    \* reported with the repeat expression
                /\ UNCHANGED <<envs, glob, rep, ctl>>
      ELSE /\ envs' = IF r.g THEN envs
-                     ELSE SetAll(envs, r.ns, [m \in 1..k |-> Restored(r.ns[m], cells[CBkRep(F.i)].vs[m])], 1)
+                     ELSE SetAll(envs, r.ns, [m \in 1..k |-> Restored(r.ns[m], cells[CBkRep(F.i)].vs[m], cells[CBkRep(F.i)].gs[m])], 1)
           \* the repeat item of an enclosing loop with the same name is put back
           \* (the pinned code left the finished inner item: deviation RepeatItemNotRestored)
           /\ rep' = IF k = 1 /\ cells[CRepPrev(F.i)] # NoRep /\ "RepeatItemNotRestored" \notin Dev
@@ -685,10 +706,12 @@ SAttr ==    \* visit_Attribute / visit_DictAttributes
          nxt == IF F.j = Len(P) THEN Goto("stagend") ELSE SetF([F EXCEPT !.j = F.j + 1])
          sup == Suppressed(It, P, F.j, F.i)
      IN IF a.dy = 0
-        THEN \* static: emitted as written unless a dictionary supplies the name
-             /\ out' = IF sup THEN out ELSE Append(out, [a |-> "sattr", i |-> F.i, n |-> a.st])
+        THEN \* static: emitted as written unless a dictionary supplies the name; translated if i18n:attributes names it
+             LET tr == IaIndex(It, It.sattr[a.st].key) > 0 IN
+             /\ out' = IF sup THEN out ELSE Append(out, [a |-> IF tr THEN "tattr" ELSE "sattr", i |-> F.i, n |-> a.st])
+             /\ log' = IF sup \/ ~tr THEN log ELSE Append(log, ATrans(F.i, a.st, 0, VDefault))
              /\ ctl' = nxt
-             /\ UNCHANGED <<envs, glob, rep, cells, log, tok, exc>>
+             /\ UNCHANGED <<envs, glob, rep, cells, tok, exc>>
         ELSE IF It.dattr[a.dy].d
         THEN \* dictionary: already evaluated
              /\ out' = out \o DictAtoms(F.i, cells[CDict(F.i, a.dy)], 1,
@@ -704,11 +727,11 @@ SAttr ==    \* visit_Attribute / visit_DictAttributes
                    /\ ctl' = nxt
                    /\ out' = IF sup THEN out
                              ELSE IF v = VDefault
-                             THEN (IF a.st > 0 THEN Append(out, [a |-> "sdflt", i |-> F.i, n |-> a.dy, st |-> a.st]) ELSE out)
+                             THEN (IF a.st > 0 THEN Append(out, [a |-> "sdflt", i |-> F.i, n |-> a.dy, st |-> a.st, tr |-> IaIndex(It, d.key) > 0 /\ ~d.b]) ELSE out)
                              ELSE IF d.b
                              THEN (IF Truthy(v) THEN Append(out, [a |-> "battr", i |-> F.i, n |-> a.dy, st |-> a.st]) ELSE out)
                              ELSE IF v = VNone THEN out
-                             ELSE Append(out, [a |-> "dattr", i |-> F.i, n |-> a.dy, st |-> a.st, v |-> v])
+                             ELSE Append(out, [a |-> "dattr", i |-> F.i, n |-> a.dy, st |-> a.st, v |-> v, tr |-> IaIndex(It, d.key) > 0])
                    /\ UNCHANGED <<envs, glob, rep, cells>>
              IN EvalAt(Site(F.i, "attr", a.dy), d.e, K)
   /\ UNCHANGED <<pid, mx, res>>
@@ -756,7 +779,7 @@ SUndef ==   \* _leave_assignment in reverse order
      THEN /\ ctl' = Goto(IF It.nm # "" THEN "nend" ELSE "done") /\ UNCHANGED envs
      ELSE LET d == It.def[F.j] IN
           /\ envs' = IF d.g THEN envs
-                     ELSE SetAll(envs, d.ns, [m \in 1..Len(d.ns) |-> Restored(d.ns[m], cells[CBk(F.i, F.j)].vs[m])], 1)
+                     ELSE SetAll(envs, d.ns, [m \in 1..Len(d.ns) |-> Restored(d.ns[m], cells[CBk(F.i, F.j)].vs[m], cells[CBk(F.i, F.j)].gs[m])], 1)
           /\ ctl' = SetF([F EXCEPT !.j = F.j - 1])
   /\ UNCHANGED <<pid, mx, glob, rep, cells, out, log, tok, exc, res>>
 
@@ -955,7 +978,7 @@ MReturn ==  \* the macro function returns
          lay == WithGlobals(envs[Top - 1], cells[CGlob(caller.i)].g)
      IN IF caller.st = "use"
         THEN /\ envs' = [SubSeq(envs, 1, Top - 2) \o <<lay>> EXCEPT ![Top - 1]["macroname"] =
-                            Restored("macroname", cells[CMacroName(caller.i)])]
+                            Restored("macroname", cells[CMacroName(caller.i)], Undef)]
              /\ ctl' = [SubSeq(ctl, 1, n - 1) EXCEPT ![n - 1].st = "loop", ![n - 1].j = 1]
         ELSE /\ envs' = SubSeq(envs, 1, Top - 2) \o <<lay>>
              /\ ctl' = [SubSeq(ctl, 1, n - 1) EXCEPT ![n - 1].st = IF items[caller.i].nm # "" THEN "nend" ELSE "done", ![n - 1].j = 1]
@@ -1081,7 +1104,7 @@ OncePerTranslateElement ==
 \* (names compared as emitted; a dictionary key equal to a later named entry is
 \* left to that entry, an earlier named entry is suppressed)
 AttrName(a) ==
-  CASE a.a = "sattr" -> pid.p.items[a.i].sattr[a.n].n
+  CASE a.a \in {"sattr", "tattr"} -> pid.p.items[a.i].sattr[a.n].n
     [] a.a \in {"dattr", "battr", "sdflt"} -> pid.p.items[a.i].dattr[a.n].n
     [] a.a = "kattr" -> a.k
     [] OTHER -> ""
@@ -1089,7 +1112,7 @@ RECURSIVE LastStag(_, _)
 LastStag(o, n) == IF n = 0 THEN 0 ELSE IF o[n].a = "stag" THEN n ELSE LastStag(o, n - 1)
 AttrAtMostOncePerName ==
   LET s == LastStag(out, Len(out)) IN
-  ("DictDuplicatesAcrossDicts" \notin Dev /\ s > 0 /\ \A n \in s + 1..Len(out) : out[n].a \in {"sattr", "dattr", "battr", "kattr", "sdflt"}) =>
+  ("DictDuplicatesAcrossDicts" \notin Dev /\ s > 0 /\ \A n \in s + 1..Len(out) : out[n].a \in {"sattr", "tattr", "dattr", "battr", "kattr", "sdflt"}) =>
      \A m, n \in s + 1..Len(out) : m # n => AttrName(out[m]) # AttrName(out[n])
 
 \* C04: an expression occurrence is evaluated at most once per activation.
